@@ -31,7 +31,7 @@ var Properties = []Property{
 	{ID: "C02", Title: "Every valid mnemonic validates", Level: "proof",
 		Rules:   []string{"ANCHOR", "L1", "L1n", "T6", "T6n", "T6v", "T5w", "T3", "G1a", "G2a", "G3a", "L2w", "L2", "L3", "L3x", "S2a", "S3", "T2", "T2n", "G4", "G4n", "E1enc", "E1val", "F1"},
 		Floors:  map[string]int{"T3.maps": 10, "L2.contexts": 50, "L1.contexts": 50},
-		Explain: "Composition of discharged premises: the encoder emits word p = list_K[S<11(W-1-p):+11>] (L1); the separator survives NFKD and is what the validator splits on, words are NFKD-stable and contain no separator (T5,T6); the lookup map is the inverse of the same list (T3); W is accepted (G3); the validator rebuilds acc = I[0]..I[W-1] MSB first, hashes exactly ENT/8 bytes Fixed(acc<CS:>, L) (L2w, L2) and returns nil on the equal edge of Cmp(SHA256(..)<top CS bits>, acc<0:CS>) (L3, S2); substituting I[p] := S<11(W-1-p):+11> makes both sides the same bits; IsMnemonicValid is CheckMnemonic == nil (S3).",
+		Explain: "Composition of discharged premises: the encoder emits word p = list_K[S<11(W-1-p):+11>] (L1); the separator survives NFKD and is what the validator splits on, words are NFKD-stable and contain no separator (T5,T6); the lookup map is the inverse of the same list (T3); W is accepted (G3); the validator rebuilds acc = I[0]..I[W-1] MSB first, hashes exactly ENT/8 bytes Fixed(acc<CS:>, L) (L2w, L2) and returns nil on the equal edge of Cmp(SHA256(..)<top CS bits>, acc<0:CS>) (L3, S2), which after the lookups is the only condition acceptance depends on, every failure exit there being its other edge (L3x); substituting I[p] := S<11(W-1-p):+11> makes both sides the same bits; IsMnemonicValid is CheckMnemonic == nil (S3).",
 		Trusted: []string{axSHA, axBig, axJoin, axNFKD, axOnce, axTool, axChecker}},
 	{ID: "C03", Title: "Validation never accepts an ill-formed or wrong-checksum mnemonic", Level: "proof",
 		Rules:   []string{"ANCHOR", "F1", "G3", "T3", "T5w", "T6v", "L2w", "L2", "L3", "S2a", "S3", "E1val"},
@@ -51,7 +51,7 @@ var Properties = []Property{
 	{ID: "C06", Title: "NewMnemonic is fail-closed and uses exactly the source's bytes", Level: "proof",
 		Rules:   []string{"ANCHOR", "F3", "F3c", "F3d", "F3e", "G2a", "G2s", "G2r", "G4n", "G4nx", "L1n", "T2n", "T2nc", "T6n", "E1enc", "E1src"},
 		Floors:  map[string]int{"G2.gate": 1},
-		Explain: "The source is read by io.ReadFull into a whole make([]byte, 4n/3) buffer; the read error is tested alone, the failure edge returns (\"\", non-nil) and the encoder is dominated by the success edge; between read and encoder nothing writes the buffer, and the encoder's inputs are exactly the bytes read (layout symbol E of the read). Fragmentation and failure points are quantified inside the io.ReadFull contract.",
+		Explain: "The source is read by io.ReadFull into a whole make([]byte, 4n/3) buffer; the read error is tested alone, the failure edge returns (\"\", non-nil), no other failure exit is reachable with an accepted count once the read succeeded (G2s), and the encoder is dominated by the success edge; between read and encoder nothing writes the buffer, and the encoder's inputs are exactly the bytes read (layout symbol E of the read). Fragmentation and failure points are quantified inside the io.ReadFull contract.",
 		Trusted: []string{"io.ReadFull(r, b) returns nil iff it filled b completely, however r fragments its reads", axBig, axSHA, axTool, axChecker}},
 	{ID: "C07", Title: "Default randomness is the OS CSPRNG", Level: "proof",
 		Rules:   []string{"ANCHOR", "F3", "F3a", "F3b", "F3c", "F3d", "F3f", "E1src"},
